@@ -866,6 +866,7 @@ func init() { h.RegisterReplayer("client-bfs", replayCB) }
 func exploreClient(run *h.Run, prop string, mode cbMode, maxDepth int) (states, transitions, depth int) {
 	ops := cbOpsFor(mode)
 	seen := map[string]bool{}
+	alts, deep := map[string][]int{}, map[string][]int{}
 	var mu sync.Mutex
 	init := runClientHistory(mode, nil)
 	seen[init.Key] = true
@@ -931,6 +932,14 @@ func exploreClient(run *h.Run, prop string, mode cbMode, maxDepth int) (states, 
 			run.Outcome(mode.Name + ":" + ops[j.op].Name)
 			mu.Lock()
 			transitions++
+			if seen[r.Key] && !r.Closed {
+				if old, ok := alts[r.Key]; !ok || (len(old) == len(hist) && lessHist(old, hist)) {
+					alts[r.Key] = hist
+				}
+				if old, ok := deep[r.Key]; !ok || len(hist) > len(old) || (len(old) == len(hist) && lessHist(old, hist)) {
+					deep[r.Key] = hist
+				}
+			}
 			if !seen[r.Key] {
 				if old, ok := cand[r.Key]; !ok || lessHist(hist, old) {
 					cand[r.Key] = hist
@@ -955,6 +964,51 @@ func exploreClient(run *h.Run, prop string, mode cbMode, maxDepth int) (states, 
 			}
 			run.Sample("client-history", 3, map[string]interface{}{"mode": mode.Name, "calls": names})
 		}
+	}
+	// merge audit (see exploreProtocol): one history merged into each state at the first level that brought one, and the
+	// longest one that ever arrived, extended by probe sequences (a transaction is completed whether or not one is open)
+	if !violated.Load() && !run.Expired() {
+		idx := map[string]int{}
+		for i, o := range ops {
+			idx[o.Name] = i
+		}
+		deliver := "Data(accepted)"
+		if mode.LMTP {
+			deliver = "LMTPData(callback)"
+		}
+		var probes [][]int
+		for _, names := range [][]string{
+			{"Rcpt(a)", deliver, "Mail(ok)", "Rcpt(b,options)", "Data(rejected)", "Noop"},
+			{"Mail(ok)", "Rcpt(a)", deliver, "Mail(ok,options)", "Rcpt(b,options)", "Data(rejected)", "Noop"},
+		} {
+			var p []int
+			for _, n := range names {
+				p = append(p, idx[n])
+			}
+			probes = append(probes, p)
+		}
+		var hists [][]int
+		for k, a := range alts {
+			hists = append(hists, a)
+			if d := deep[k]; len(d) > len(a) {
+				hists = append(hists, d)
+			}
+		}
+		sort.Slice(hists, func(a, b int) bool { return lessHist(hists[a], hists[b]) })
+		var audited atomic.Int64
+		h.ParallelFor(len(hists), func(i int) {
+			for _, p := range probes {
+				hist := append(append([]int(nil), hists[i]...), p...)
+				r := runClientHistory(mode, hist)
+				if r.Disabled {
+					continue
+				}
+				audited.Add(1)
+				run.Trace(1)
+				report(hist, r)
+			}
+		})
+		run.Counter("client_search_merge_audit["+mode.Name+"]", audited.Load())
 	}
 	if len(frontier) > 0 && !violated.Load() {
 		run.NotExhaustive(fmt.Sprintf("client search (%s) stopped at depth %d with %d unexpanded states", mode.Name, depth-1, len(frontier)))
